@@ -154,7 +154,16 @@ def parseKE (ks es : String) : Option (Nat × Bool) :=
 
 end Logging
 
-def step (s : St) (toks : List String) : St × String :=
+/-- `twinxw` / `twinfw` are `twinx` / `twinf` in designated single-op cases (the harness reports the
+logger-error classes that are open findings only there). -/
+def normalise (toks : List String) : List String :=
+  match toks with
+  | "twinxw" :: r => "twinx" :: r
+  | "twinfw" :: r => "twinf" :: r
+  | t => t
+
+def step (s : St) (toks0 : List String) : St × String :=
+  let toks := normalise toks0
   match toks with
   | "snap" :: _mode :: skip :: cts :: rest =>
     match parseOpts skip cts, parseMsg rest with
